@@ -7,7 +7,7 @@ cd $WT || exit 2
 OUT=/verif/seeded/$NAME; mkdir -p $OUT
 git diff -- src > $OUT/patch.diff
 [ -s $OUT/patch.diff ] || { echo "no source change in $WT"; exit 2; }
-T=$(PYTHONPATH=$WT/src /venv/bin/python -m pytest -q -p no:cacheprovider --timeout=900 --continue-on-collection-errors 2>&1 | tail -1)
+T=$(PYTHONPATH=$WT/src /venv/bin/python -m pytest -q -p no:cacheprovider --timeout=900 --continue-on-collection-errors 2>&1 | grep -E " passed| failed" | tail -1)
 PYTHONPATH=$WT/src /venv/bin/python seeded/demo.py > /dev/null 2>&1; WITH=$?
 git apply -R $OUT/patch.diff        # (not git stash: the stash is shared between worktrees)
 PYTHONPATH=$WT/src /venv/bin/python seeded/demo.py > /dev/null 2>&1; WITHOUT=$?
